@@ -5,6 +5,7 @@ here="$(cd "$(dirname "$0")" && pwd)"
 cd "$here"
 mkdir -p bin evidence replays
 if [ -f ptsup/ptsup.c ]; then gcc -O2 -o bin/ptsup ptsup/ptsup.c; fi
+if [ -f ptsup/lockprobe.c ]; then gcc -O2 -o bin/lockprobe ptsup/lockprobe.c; fi
 ./build.sh std
 ./build.sh race || echo "race variant failed to build" >&2
 ./build.sh vfs || echo "vfs variant failed to build" >&2
